@@ -290,7 +290,7 @@ def bterm_eq(a, b):
     return xsame(a, b) if isinstance(a, XR) or isinstance(b, XR) else (a is b)
 
 
-@script(["C07"], "CVR.consistent_sampling/loop invariant (unbounded number of cards, 2 contests)")
+@script(["C07"], "CVR.consistent_sampling/loop invariant (unbounded number of cards, 2 contests)", optional=True)
 def consistent_sampling_unbounded(S, I, variant):
     c = ctx()
     N = S.integer("N", lo=0)
@@ -548,7 +548,7 @@ class ListContestSummary:
 
 
 @script(["C08"], "CVR.make_phantoms/post (unbounded: symbolic number of CVRs, bounds and phantoms; loop summaries; 2 contests)",
-        variants=(("style",), ("nostyle",)))
+        variants=(("style",), ("nostyle",)), optional=True)
 def make_phantoms_unbounded(S, I, variant):
     use_style = variant[0] == "style"
     c = ctx()
